@@ -4,6 +4,7 @@ package main
 // and the sync primitives, which the engine schedules itself.
 
 import (
+	"math"
 	"fmt"
 	"go/types"
 	"path/filepath"
@@ -397,6 +398,12 @@ func registerExternals(e *Engine) {
 		x[n] = flagVal
 	}
 	x["flag.Parse"] = func(p *Path, th *Thread, fr *frame, a []Value) Value { return nil }
+	// concrete float helpers whose bodies are assembly stubs
+	for n, f := range map[string]func(float64) float64{"math.Ceil": math.Ceil, "math.Floor": math.Floor, "math.Round": math.Round, "math.Trunc": math.Trunc, "math.Sqrt": math.Sqrt, "math.Abs": math.Abs, "math.Log": math.Log, "math.Log2": math.Log2, "math.Exp": math.Exp} {
+		f := f
+		x[n] = func(p *Path, th *Thread, fr *frame, a []Value) Value { return f(a[0].(float64)) }
+	}
+	x["math.Pow"] = func(p *Path, th *Thread, fr *frame, a []Value) Value { return math.Pow(a[0].(float64), a[1].(float64)) }
 	// expvar: a fresh unpublished variable (the global registry is a sync.Map)
 	for _, n := range []string{"Int", "Float", "String", "Map"} {
 		n := n
